@@ -372,9 +372,18 @@ func runUPS(r *core.Run) {
 		}
 		e.subs = append(e.subs, s)
 		delay := W.Weighted([]int{5, 2, 1}) * 8
+		// late comers: subscribe after simulated time has passed, so that a connection which went
+		// idle is reused (or not) around its idle time-out
+		late := time.Duration(W.Weighted([]int{12, 2, 2, 1, 1})) * 700 * time.Millisecond
 		sctx, scancel := context.WithCancel(ctx)
 		s.cancel = scancel
 		simrt.GoTag("ups.subscriber", fmt.Sprintf("usub%d", i), func() {
+			if late > 0 {
+				t := simrt.Block("usub.late")
+				time.Sleep(late)
+				simrt.Woke(t)
+				r.Probe("late_subscriber")
+			}
 			for k := 0; k < delay; k++ {
 				simrt.YieldClass("usub.delay", simrt.ClassClient)
 			}
